@@ -273,7 +273,7 @@ func checkSourceMap(code string, mapText string, resolveSource func(string) (str
 		}
 		prevLine, prevCol = sg.GenLine, sg.GenCol
 		gOff := offsetOf(code, genStarts, sg.GenLine, sg.GenCol)
-		if gOff < 0 {
+		if gOff < 0 || gOff >= len(code) {
 			add("generated-position-out-of-range", fmt.Sprintf("(%d,%d)", sg.GenLine, sg.GenCol))
 			continue
 		}
